@@ -282,8 +282,9 @@ def san_env(config, out):
 
 def run_shard(exe, job, prop, tier, seed, shard, odir, rdir):
     out = os.path.join(odir, '%s.%d' % (job.tag, shard))
+    bdir_ = os.path.dirname(odir)
     base = [exe, '--prop', prop, '--tier', tier, '--seed', str(seed), '--shard', str(shard), '--nshards', str(job.shards),
-            '--out', out, '--replay-dir', rdir] + job.args
+            '--out', out, '--replay-dir', rdir] + [a.replace('{bdir}', bdir_) for a in job.args]
     env = dict(os.environ)
     env.update(san_env(job.config, out))
     env.update(job.env)
@@ -392,6 +393,8 @@ def do_check(prop, tier, seed):
     evpath = os.path.join(VERIF, 'evidence', prop + '.json')
     rc = 2
     try:
+        if 'pre' in spec:
+            spec['pre'](tier, seed, bdir)
         jobs = spec['jobs'](tier, seed)
         res = execute(prop, tier, seed, jobs, bdir, rdir)
         if 'post' in spec:
@@ -532,6 +535,11 @@ def do_replay(path):
         for opt in ('--out', '--replay-dir', '--start-case', '--only-case'):
             while opt in args:
                 i = args.index(opt); del args[i:i + 2]
+        if 'pre' in spec:
+            spec['pre'](tier, rec['seed'], bdir)
+        for i in range(0, len(job.args) - 1):
+            if '{bdir}' in job.args[i + 1] and job.args[i] in args:
+                args[args.index(job.args[i]) + 1] = job.args[i + 1].replace('{bdir}', bdir)
         cmd = [exe] + args + ['--out', out, '--replay-dir', bdir, '--only-case', str(rec['case'])]
         env = dict(os.environ); env.update(san_env(job.config, out)); env.update(job.env)
         if job.runner:
